@@ -2534,6 +2534,38 @@ func (d *Data) MoveElement(ctx *datastore.VersionedCtx, from, to dvid.Point3d, k
 	}
 
 	deleteElement := (bytes.Compare(fromTk, toTk) != 0)
+
+	// Reject, before anything is written, a move that cannot keep the indexes consistent.
+	var cur *Element
+	for i := range fromElems {
+		if from.Equals(fromElems[i].Pos) {
+			cur = &fromElems[i]
+			break
+		}
+	}
+	if cur == nil {
+		return fmt.Errorf("Did not find moved element %s in datastore", from)
+	}
+	if from.Equals(to) {
+		return nil // nothing to do
+	}
+	for _, rel := range cur.Rels {
+		if rel.To.Equals(from) || rel.To.Equals(to) {
+			return fmt.Errorf("cannot move element %s to %s: it has a relationship to %s, which would point to the element itself", from, to, rel.To)
+		}
+	}
+	destElems := fromElems
+	if deleteElement {
+		if destElems, err = getElements(ctx, toTk); err != nil {
+			return err
+		}
+	}
+	for _, elem := range destElems {
+		if to.Equals(elem.Pos) {
+			return fmt.Errorf("cannot move element %s onto the existing element at %s", from, to)
+		}
+	}
+
 	moved, _ := fromElems.move(from, to, deleteElement)
 	if moved == nil {
 		return fmt.Errorf("Did not find moved element %s in datastore", from)
